@@ -22,6 +22,8 @@ type channelBroker struct {
 	mu sync.RWMutex
 	// s is a slice of all SecureChannels watched by the channelBroker
 	s map[uint32]*uasc.SecureChannel
+	// closed is set by Close: channels are no longer registered
+	closed bool
 
 	// Next Secure Channel ID to issue to a client
 	secureChannelID uint32
@@ -87,12 +89,19 @@ func (c *channelBroker) RegisterConn(ctx context.Context, conn *uacp.Conn, local
 	}
 
 	c.mu.Lock()
+	if c.closed {
+		// Close no longer waits for new channels
+		c.mu.Unlock()
+		sc.Close()
+		return io.ErrClosedPipe
+	}
 	c.s[secureChannelID] = sc
 	if c.logger != nil {
 		c.logger.Info("Registered new channel (id %d) now at %d channels", secureChannelID, len(c.s))
 	}
-	c.mu.Unlock()
+	// count the channel while Close cannot be waiting yet
 	c.wg.Add(1)
+	c.mu.Unlock()
 outer:
 	for {
 		select {
@@ -141,6 +150,7 @@ outer:
 func (c *channelBroker) Close() error {
 	var err error
 	c.mu.Lock()
+	c.closed = true
 	for _, s := range c.s {
 		s.Close()
 	}
